@@ -280,12 +280,24 @@ class JetOdeAutonomous(_JetOdeCommon, Generic[T]):
         raise NotImplementedError
 
 
+def _verify_output_like(fx, like, /):
+    """Raise a ValueError unless a vector field's output is shaped like the state."""
+    shapes_fx = tree.tree_map(np.shape, fx)
+    shapes_like = tree.tree_map(np.shape, like)
+    if shapes_fx != shapes_like:
+        msg = "The vector field's output does not match the shape of the state."
+        msg += f" Expected: {shapes_like}."
+        msg += f" Received: {shapes_fx}."
+        raise ValueError(msg)
+    return fx
+
+
 def ode(func: _ProtocolODEFirstOrder, /, *, jacobian: jacobians.Jacobian | None = None):
     """Construct a description of an ODE u' = f(u, t)."""
 
     def jetfunc(*, jet_coords: Sequence[T], t: float) -> list[T]:
         [y] = jet_coords
-        return [func(y, t=t)]
+        return [_verify_output_like(func(y, t=t), y)]
 
     if jacobian is None:
         jacobian = jacobians.jacobian_monte_carlo_rev()
@@ -302,7 +314,7 @@ def ode_order_two(
 
     def jetfunc(*, jet_coords: Sequence[T], t: float) -> list[T]:
         (y, dy) = jet_coords
-        return [func(y, dy, t=t)]
+        return [_verify_output_like(func(y, dy, t=t), y)]
 
     if jacobian is None:
         jacobian = jacobians.jacobian_monte_carlo_rev()
@@ -321,7 +333,8 @@ def ode_order_arbitrary(
     """Construct a description of an ODE of arbitrary order."""
 
     def jetfunc(*, jet_coords: Sequence[T], t: float) -> list[T]:
-        return [func(*jet_coords[:num_tcoeffs_in_args], t=t)]
+        fx = func(*jet_coords[:num_tcoeffs_in_args], t=t)
+        return [_verify_output_like(fx, jet_coords[0])]
 
     if jacobian is None:
         jacobian = jacobians.jacobian_monte_carlo_rev()
